@@ -482,10 +482,7 @@ namespace occa {
 #ifdef LIBOCCA_OCCA_VERIF
     verif::yield(verif::ptBeforeBytes);
 #endif
-    modeDevice->bytesAllocated += bytes;
-    modeDevice->maxBytesAllocated = std::max(
-      modeDevice->maxBytesAllocated, modeDevice->bytesAllocated
-    );
+    modeDevice->addBytesAllocated(bytes);
 #ifdef LIBOCCA_OCCA_VERIF
     verif::yield(verif::ptAfterBytes);
 #endif
